@@ -9,6 +9,7 @@ interpreter raises Unsupported and the rules report ANALYSIS-INCOMPLETE.
 cyecca's code is never executed and casadi is never imported.
 """
 import ast
+import builtins as _builtins_mod
 import operator as O
 import sys
 from fractions import Fraction
@@ -876,6 +877,9 @@ class Interp:
                 return v
             if n.id in BUILTINS:
                 return BUILTINS[n.id]
+            if hasattr(_builtins_mod, n.id):
+                # a Python builtin this interpreter has no model of: no verdict, not a NameError of the program
+                raise Unsupported("builtin %s is not modelled" % n.id, n)
             raise InterpRaise("NameError", "name '%s' is not defined" % n.id, n, module=module)
         if t is ast.Attribute:
             return self.getattr(self.ev(n.value, env, module), n.attr, n)
@@ -968,10 +972,21 @@ class Interp:
         if t is ast.Lambda:
             return FuncObj(n, env, module)
         if t is ast.JoinedStr:
+            parts = []
             for v in n.values:
                 if isinstance(v, ast.FormattedValue):
-                    self.ev(v.value, env, module)
-            return "<fstring>"
+                    val = self.ev(v.value, env, module)
+                    spec = self.ev(v.format_spec, env, module) if v.format_spec is not None else ""
+                    if isinstance(val, (str, int, bool)) and not isinstance(val, Stub) and v.conversion in (-1, 115) and isinstance(spec, str) and "<" not in spec:
+                        try:
+                            parts.append(format(val, spec))
+                            continue
+                        except (ValueError, TypeError):
+                            pass
+                    parts.append(_str(val) if v.conversion in (-1, 115) and not spec else "<fstring>")
+                else:
+                    parts.append(v.value if isinstance(v, ast.Constant) else "<fstring>")
+            return "".join(parts)
         if t is ast.IfExp:
             return self.ev(n.body if self.truth(self.ev(n.test, env, module), n.test) else n.orelse, env, module)
         if t is ast.Starred:
@@ -1688,6 +1703,7 @@ BUILTINS = {
 for _e in ("NotImplementedError", "ValueError", "TypeError", "KeyError", "RuntimeError", "AssertionError", "Exception",
            "IndexError", "AttributeError", "ZeroDivisionError", "ImportError", "OSError", "StopIteration", "NameError"):
     BUILTINS[_e] = ExcClass(_e)
+BUILTINS["slice"] = slice
 BUILTINS["int"] = _int
 BUILTINS["float"] = _float
 del BUILTINS["getattr"], BUILTINS["setattr"]
